@@ -2,7 +2,7 @@
 
 /*@obligation
 id: C17.coder_normal
-props: C17 C04
+props: C17
 entry: h_coder_normal
 flags: xz
 kind: bounded
